@@ -18,7 +18,7 @@ From BB Require Import BN Brute SpaceFacts TrapFacts PercolateFacts AttractorFac
   Strict PetriNet Control Meta FilterFacts PetriNetFacts TrappistFacts DiagramStruct DiagramSem1 DiagramCache
   DiagramDepth DiagramComplete Termination ControlFacts MetaFacts Candidates StrictFacts MinExpandFacts CandidatesFacts SymbolicTest SymbolicTestFacts Signed ReductionFacts ControlFacts2 Main Blocks BlocksFacts ObsFacts OwnerFacts CandidatesTerm
   PartialOwner BlockMath BlockComplete ASeeds ASeedsFacts LogChecks SkipRule SkipRuleFacts Names NamesFacts Perm PermFacts SCC SCCFacts SCCStruct ControlFacts3 SCCTerm FilterSym Main2 StrategyFacts ControlFacts4 SkipRuleFacts2 SCCComplete SCCAttr BlockComplete2 ControlFacts5 Iso SkipSem ControlFacts6.
-From BB Require Import PyLib PyLibSd PySrcSdBase PySrcSd PySrcSdFacts PyLibSd PySrcSdBase PySrcSdTarget PySrcSdTargetFacts PyLib PyLibSd PyLibCore PyLibSd2 PySrcSdBase PySrcSdMin PySrcSdMinFacts Candidates Blocks ASeeds PySrcSdASeeds PySrcSdASeedsFacts PySrcTermFacts PyLib PyLibSd PyLibCore PyLibSd2 PyLibScc PySrcSdBase PySrcSdScc PySrcSdSccFacts Control PyLibControl PySrcSdSccMain PySrcSdSccMainFacts PyLibBlocks PySrcSdBlocks PySrcApi PySrcEndToEndScc.
+From BB Require Import PyLib PyLibSd PySrcSdBase PySrcSd PySrcSdFacts PyLibSd PySrcSdBase PySrcSdTarget PySrcSdTargetFacts PyLib PyLibSd PyLibCore PyLibSd2 PySrcSdBase PySrcSdMin PySrcSdMinFacts Candidates Blocks ASeeds PySrcSdASeeds PySrcSdASeedsFacts PySrcTermFacts PyLib PyLibSd PyLibCore PyLibSd2 PyLibScc PySrcSdBase PySrcSdScc PySrcSdSccFacts Control PyLibControl PySrcSdSccMain PySrcSdSccMainFacts PyLibBlocks PySrcSdBlocks PySrcSdBlocksFacts PySrcApi PySrcEndToEndScc PySrcEndToEndBlocks.
 
 (* the loops of the strategy drivers AS WRITTEN IN THE SOURCE (generated functions, public wrappers included) end within the fuel bound of the model *)
 Theorem C13_source_expand_bfs_terminates : forall (fuel : nat) (N : net) (cfg : config) (d : sd) (start lvl sz : option nat), SWF N d -> valid_start d start = true -> max_nodes N + 2 <= fuel -> snd (py_api_expand_bfs fuel N cfg d start lvl sz) <> RFuel.
@@ -102,6 +102,10 @@ Proof. exact fresh_total. Qed.
 Theorem C13_scc_expansion_terminates : forall (fuel : nat) (N : net) (cfg : config) (d : sd) (maa : bool) (tape : tape_t), 1 <= max_motifs cfg -> SWF N d -> TrapNodes N d -> EdgeStrict d -> nvars N + 2 <= fuel -> snd (expand_scc fuel N cfg d maa tape) <> RFuel.
 Proof. exact expand_scc_terminates. Qed.
 
+(* the generated expand_block with fuel 3^n + 2 does not run out of fuel on any well-formed diagram *)
+Theorem C13_source_text_expand_block_terminates : forall (fuel : nat) (N : net) (cfg : config) (d : sd) (tape : list bool) (maa : bool) (sz : option nat) (opt exact : bool), SWF N d -> max_nodes N + 2 <= fuel -> forall d0 : sd, py_api_expand_block fuel N cfg d tape maa sz opt exact <> SFuel d0.
+Proof. exact py_api_expand_block_terminates. Qed.
+
 (* the same for the SOURCE TEXT: the generated public method expand_scc on a fresh diagram with fuel n + 2 neither runs out of fuel nor trips one of its assertions *)
 Theorem C13_source_text_expand_scc_terminates : forall (fuel : nat) (N : net) (cfg : config) (maa : bool) (tape : list (option bool)), 1 <= max_motifs cfg -> nvars N + 2 <= fuel -> (forall d : sd, py_api_expand_scc fuel N cfg (init N) tape maa <> SFuel d) /\ (forall d : sd, py_api_expand_scc fuel N cfg (init N) tape maa <> SRaise d (RRaised ErrAssert)).
 Proof. exact py_api_expand_scc_terminates. Qed.
@@ -142,6 +146,7 @@ Print Assumptions C13_fixed_loop_answers_on_that_instance.
 Print Assumptions C13_aseeds_expansion_terminates.
 Print Assumptions C13_sanitize_clash_loop_terminates.
 Print Assumptions C13_scc_expansion_terminates.
+Print Assumptions C13_source_text_expand_block_terminates.
 Print Assumptions C13_source_text_expand_scc_terminates.
 Print Assumptions C13_scc_expansion_no_assert.
 Print Assumptions C13_scc_expansion_edge_strict.
